@@ -440,8 +440,10 @@ def _walk(node, out):
         pass
     elif head in ('IN', 'NOT_IN'):
         _walk(node[1], out)
+        start = len(out)
         for x in node[2]:
             _walk(x, out)
+        out.append(('unordered', start, len(out)))      # the items of an IN list form a set: their order carries no meaning
     elif head in ('LIKE', 'NOT_LIKE'):
         _walk(node[1], out)
         _walk(node[2], out)
@@ -535,7 +537,15 @@ def judge_ast(case, styles=L.STYLES):
     values = [dec(x) for x in case['values']]
     ref = reference_order(stmt)
     exp_params = []
-    for e in ref:
+    unordered = []           # index ranges of exp_params that belong to one IN list
+    index_of = {}
+    for n_ref, e in enumerate(ref):
+        index_of[n_ref] = len(exp_params)
+        if e[0] == 'unordered':
+            a, b = index_of[e[1]], len(exp_params)
+            if b - a > 1:
+                unordered.append((a, b))
+            continue
         if e[0] == 'p':
             v = values[e[1]]
             exp_params.append(('p', v if e[2] is None else v[e[2]], e))
@@ -579,7 +589,16 @@ def judge_ast(case, styles=L.STYLES):
             fails.append(('count', head + '%d placeholders in the text, the AST has %d parameter operands; %s'
                           % (len(bound), len(exp_params), shown), style))
             continue
-        for k, (b, (ek, ev, e)) in enumerate(zip(bound, exp_params)):
+        # inside one IN list any order of the items is the same statement: compare those ranges as multisets
+        bound_cmp = list(bound)
+        for (a, z) in unordered:
+            if all(x[0] == 'p' for x in exp_params[a:z]) and \
+                    sorted(repr(x.value) for x in bound_cmp[a:z]) == sorted(repr(x[1]) for x in exp_params[a:z]):
+                by_val = {}
+                for x in bound_cmp[a:z]:
+                    by_val.setdefault(repr(x.value), []).append(x)
+                bound_cmp[a:z] = [by_val[repr(x[1])].pop() for x in exp_params[a:z]]
+        for k, (b, (ek, ev, e)) in enumerate(zip(bound_cmp, exp_params)):
             if ek == 'p':
                 if type(b.value) is not type(ev) or b.value != ev:
                     fails.append(('alignment', head + 'placeholder #%d in text order (bound through %r) receives %r, but the '
@@ -926,7 +945,16 @@ def analyse_statement(dialect, style, sql, args, case):
             fails.append(('structure', '%s: the condition on %s was given the operand(s) %r but the text %s holds %d literal(s) / '
                           'placeholder(s) %s; %s' % (dialect, a['col'], operands, written, len(us), us, shown)))
             continue
-        for u, v, o in zip(us, operands, a['args']):
+        pairs = list(zip(us, operands, a['args']))
+        if a['op'] == 'in':
+            # the items of an IN list form a set: pair every written item with some supplied operand it denotes
+            left = list(zip(operands, a['args']))
+            pairs = []
+            for u in us:
+                k = next((k for k, (v, o) in enumerate(left) if L.denotes(dialect, u, v) is None), 0)
+                v, o = left.pop(k)
+                pairs.append((u, v, o))
+        for u, v, o in pairs:
             why = L.denotes(dialect, u, v)
             if why is not None:
                 fails.append(('unmodelled' if 'not modelled' in why else 'denotation' if 'c' in o else 'alignment',
